@@ -46,6 +46,13 @@ def offdata_variants(case):
             continue
         out.append(dict(pts=case["pts"], metric=m, algo="kcenters", k=case["k"], cut=case["cut"], ti=case["ti"],
                         init=[], initXY=q, form="function", dtype="float64"))
+        if m == "linf" or (m == "l1" and len(case["pts"][0]) == 1):      # (in one dimension L1 = Linf)
+            # integer DATA continued from centers with a fractional part (means, centroids): on the doubled lattice
+            # the data are the even points and the centers odd ones; the real run gets the halves (scale 1/2), the
+            # data in an integer type, the centers as floats (callable metric: the typed kernels want one type)
+            out.append(dict(pts=[[2 * v for v in p] for p in case["pts"]], metric="linf", algo="kcenters", k=case["k"],
+                            cut=2 * case["cut"], ti=case["ti"], init=[], initXY=[[2 * v + 1 for v in x] for x in q],
+                            form="function", dtype=("int64", "int32")[shift % 2], scale=0.5, layout="C"))
     return out
 
 
